@@ -181,6 +181,16 @@ def c11(run):
         "ordered pairs (target, source) of tables built by random histories under different plans; clone / clone_from / == validated incl. fresh identities of the clones and later independence")
 
 
+def c12(run):
+    return generic_check(run, [], [],
+        [("tryres", ["map:kv16:collide:24:900:tryres:fault=35", "map:k1v4:zero:14:500:tryres:fault=35", "map:kv200:mixed:30:400:tryres:fault=35"]),
+         ("tryres2", ["map:k3v4:fewpos:20:500:tryres:fault=35", "map:kva64:onegroup:12:400:tryres:fault=35"])],
+        [("tryres3", ["map:kv24:collide:40:4000:tryres:fault=35", "map:k5v4:max:20:3000:tryres:fault=35", "map:k8v4:seq:48:3000:tryres:fault=35"]),
+         ("tryresg", ["map:kv16:collide:24:3000:tryres:fault=35", "map:k1v4:zero:14:2000:tryres:fault=35"], G)],
+        "try_reserve on random states with amounts 0..small, around 7/8*2^k, and near isize::MAX / usize::MAX (classified symbolically), with the "
+        "allocator refusing the j-th request: result class, refused layout, unchanged state and ledger validated")
+
+
 def c13(run):
     return generic_check(run, [("MC_map_w2churn.cfg", "MC_map.tla", {"timeout": 300})], [],
         [("churn", ["map:kv16:collide:12:3000:churn", "map:kv16:zero:10:2000:churn"]),
@@ -219,6 +229,7 @@ CHECKS = {
     "C09": c09,
     "C10": c10,
     "C11": c11,
+    "C12": c12,
     "C13": c13,
     "C14": c14,
     "C15": c15,
